@@ -71,6 +71,11 @@ func (g *cGraph) content(i int) string {
 		s := b.String()
 		return s[:len(s)-len(fmt.Sprintf("f%d\n", i))-4] + "!ty" // cut inside the last block
 	}
+	if tail, ok := c06TruncTails[g.fault(i)]; ok {
+		// the file ends in the middle of a further declaration: the only thing wrong with it is that the
+		// input ends too early
+		return b.String() + tail
+	}
 	return b.String()
 }
 
@@ -473,7 +478,7 @@ func (g *cGraph) oracleReq(order []int) map[string]any {
 		if f == "syntaxImport" {
 			bad = append(bad, i)
 		}
-		if f == "syntaxBody" || f == "truncated" {
+		if c06IsBodyFault(f) {
 			badBody = append(badBody, i)
 		}
 		G = append(G, []any{i, ims})
@@ -591,8 +596,34 @@ func c05Corpus() []*cGraph {
 	return []*cGraph{w}
 }
 
+// files cut short at a point where everything before the cut is well-formed (the parser's complaint is about
+// the end of input, not about a token)
+var c06TruncTails = map[string]string{
+	"trunc:name":      "Tail",
+	"trunc:header":    "Tail:",
+	"trunc:header-nl": "Tail:\n",
+	"trunc:attrs":     "Tail [~x",
+	"trunc:attr-str":  "Tail [a=\"x",
+	"trunc:type":      "Tail:\n    !type X:\n",
+	"trunc:field":     "Tail:\n    !type X:\n        y <:",
+	"trunc:ep":        "Tail:\n    Ep:\n",
+	"trunc:call":      "Tail:\n    Ep:\n        Other <-",
+	"trunc:import":    "import",
+}
+
+func c06IsBodyFault(f string) bool {
+	_, t := c06TruncTails[f]
+	return t || f == "syntaxBody" || f == "truncated"
+}
+
 func c06AddFaults(r *Rand, g *cGraph) {
 	kinds := []string{"readErr", "syntaxImport", "syntaxBody", "truncated", "missingImport"}
+	var tk []string
+	for k := range c06TruncTails {
+		tk = append(tk, k)
+	}
+	sort.Strings(tk)
+	kinds = append(kinds, tk...)
 	k := 1 + r.Intn(2)
 	// prefer files whose path is a near-duplicate of another file's (gen/x vs .gen/x): a fault
 	// there must be reported like any other
